@@ -6,6 +6,7 @@
    AllocateVolume RPC answers). *)
 From Coq Require Import String List ZArith Bool Permutation.
 From SW Require Import model.TopoPlace proof.TopoPlaceProofs proof.TopoPlaceGrow.
+From SW Require model.TopoCount model.TopoPlaceTruth proof.TopoPlaceTruthProofs.
 Import ListNotations.
 Local Open Scope Z_scope.
 
@@ -118,6 +119,84 @@ Theorem c10_grow_all_or_none_partial : forall orc fl t o,
   gr_allocated (find_and_grow orc fl t o) = [] /\ gr_topo (find_and_grow orc fl t o) = t.
 Proof. exact find_and_grow_partial_thm. Qed.
 Print Assumptions c10_grow_all_or_none_partial.
+
+(* ---- placement against what the servers REALLY hold (model/TopoPlaceTruth.v) ----
+   The theorems above take the counters as given, as the code does.  [truth_of ops] is what every
+   registered server holds after the heartbeat history [ops] (joins, max counts, full and
+   incremental volume and EC-shard heartbeats, unregistrations) computed from the events alone;
+   [truth_topology t tr] carries, on the id tree of t, the counts that follow from it, so that
+   AvailableSpaceFor on it is the number of really free slots.  [counters_true t T]: the four
+   counters AvailableSpaceFor reads agree at every level -- the invariant of property C12. *)
+Import TopoPlaceTruth TopoPlaceTruthProofs.
+
+(* If the counters equal the truth, the placement rule gives the same verdict on both -- for all
+   topologies, options and server lists. *)
+Theorem c10_placement_ok_counters_vs_truth : forall t T o ss, counters_true t T = true ->
+  placement_ok t o ss = placement_ok T o ss.
+Proof. exact placement_ok_true_iff_thm. Qed.
+Print Assumptions c10_placement_ok_counters_vs_truth.
+
+(* Hence: for every heartbeat history, if the master's counters equal what the history left on
+   the servers, every list the search returns without error satisfies the placement rule
+   against the truth; in particular no chosen server is really full. *)
+Theorem c10_placement_on_truth : forall ops orc t o ss,
+  wf_topology t = true ->
+  counters_true t (truth_topology t (truth_of ops)) = true ->
+  find_empty_slots orc t o = (ss, false) ->
+  placement_ok (truth_topology t (truth_of ops)) o ss = true.
+Proof. exact placement_on_truth_thm. Qed.
+Print Assumptions c10_placement_on_truth.
+
+Theorem c10_no_full_server_chosen : forall ops orc t o ss s,
+  wf_topology t = true ->
+  counters_true t (truth_topology t (truth_of ops)) = true ->
+  find_empty_slots orc t o = (ss, false) -> In s ss ->
+  has_free_slot (truth_topology t (truth_of ops)) o s = true.
+Proof. exact no_full_server_chosen_thm. Qed.
+Print Assumptions c10_no_full_server_chosen.
+
+(* The success condition too has the same value on the counters and on the truth ... *)
+Theorem c10_all_paths_ok_counters_vs_truth : forall t T o, counters_true t T = true ->
+  all_paths_ok t o = all_paths_ok T o.
+Proof. exact all_paths_ok_true_iff_thm. Qed.
+Print Assumptions c10_all_paths_ok_counters_vs_truth.
+
+(* ... hence completeness against the truth: if the counters equal the truth and the TRUTH
+   satisfies the success condition, the search succeeds for every map order and random numbers
+   (the check requires of every history case that reported an error that the truth does not
+   satisfy the condition). *)
+Theorem c10_success_on_truth : forall ops orc t o,
+  wf_topology t = true ->
+  counters_true t (truth_topology t (truth_of ops)) = true ->
+  all_paths_ok (truth_topology t (truth_of ops)) o = true ->
+  snd (find_empty_slots orc t o) = false.
+Proof. exact success_on_truth_thm. Qed.
+Print Assumptions c10_success_on_truth.
+
+(* The hypothesis cannot be dropped: after a stale incremental EC delete (shards 3-6 of a volume
+   of which the server holds shards 0-2) a master whose ecShardCount fell by the four NAMED
+   shards sees a free slot on a server that has none, and replication 001 is placed on it: the
+   rule holds on the counters and fails on the truth. *)
+Theorem c10_placement_needs_true_counters :
+  wf_topology w_drifted = true /\
+  true_free (truth_of w_hist) ["dc1"; "r1"; "n2"]%string "" = 0 /\
+  counters_true w_drifted (truth_topology w_drifted (truth_of w_hist)) = false /\
+  exists ss, find_empty_slots w_oracle w_drifted w_opt = (ss, false) /\
+             placement_ok w_drifted w_opt ss = true /\
+             placement_ok (truth_topology w_drifted (truth_of w_hist)) w_opt ss = false.
+Proof. exact placement_needs_true_counters_thm. Qed.
+Print Assumptions c10_placement_needs_true_counters.
+
+(* non-vacuity: the same history with the counters the unchanged code keeps satisfies the
+   hypotheses of c10_placement_on_truth; 001 is refused, 000 goes to the server with room *)
+Example c10_example_placement_on_truth :
+  wf_topology w_exact = true /\ hist_wf w_hist = true /\ same_nodes w_exact (truth_of w_hist) = true /\
+  counters_true w_exact (truth_topology w_exact (truth_of w_hist)) = true /\
+  snd (find_empty_slots w_oracle w_exact w_opt) = true /\
+  (let o0 := {| go_disk := ""; go_dc := ""; go_rack := ""; go_node := ""; rp_dc := 0; rp_rack := 0; rp_same := 0 |} in
+   find_empty_slots w_oracle w_exact o0 = ([("dc1", "r1", "n1")%string], false)).
+Proof. exact placement_on_truth_example. Qed.
+Print Assumptions c10_example_placement_on_truth.
 
 (* ---- non-vacuity (definitions and proofs in proof/TopoPlaceGrow.v) ---- *)
 (* the hypotheses of c10_placement are satisfiable on a 2-DC topology with replication 111,
